@@ -443,6 +443,9 @@ def check_facade(case, col, derived):
                 # an over-refusal in the sense of C13 (counted there and here, never a violation)
                 col.bump('over-refusal:%s/%s: %s' % (ns, kind, ''.join(c for c in str(e) if not c.isdigit())[:60]))
                 continue
+            if dl == '/derived-legal':
+                # which rule the library invoked and at which level, so that a known finding can be matched narrowly
+                dl = '/l%d/derived-legal:%s' % (level, 'semicolon' if 'semicolon' in str(e) else ('version' if 'version' in str(e) else 'other'))
             col.fail('%s/%s/%s-refused%s' % (pre, kind, what, dl), 'd',
                      '%s through the %s facade was refused: %s' % (what.split('/')[0], ns, str(e)[:160]), case)
             continue
